@@ -231,6 +231,16 @@ def r12_4(ctx):
               f"{fi.key}::R12.4::appended",
               f"the value appended for out_t is `{appended}`; the property requires the interpolant of the two "
               f"neighbouring grid states `{ref2}`", "interpolant of (prev_t, prev_y), (curr_t, curr_y) at out_t")
+    # the rest of the output-loop body only emits the output: it leaves every loop-carried variable unchanged, so the
+    # inductive stamps (prev_y at prev_t, curr_y at curr_t) still hold when the next output time is processed
+    for name in ik.CARRIED:
+        v = pt.env.get(name)
+        head = ik.H(name, name not in ("step_size", "prev_t", "curr_t", "prev_error_ratio"))
+        head = nf.sym(f"{name}@head", name in ("step_size", "prev_t", "curr_t", "prev_error_ratio"))
+        rep.check(ik._same(v, head), "R12.4", astq.loc(fi, for_node), f"{fi.key}::R12.4::tail-preserves::{name}",
+                  f"after an output is emitted `{name}` becomes `{v}`: the loop state must not change between the "
+                  f"stepping loop and the next output time, or a second output inside the same step is interpolated from "
+                  f"an inconsistent (time, state) pair", "unchanged by the output step")
     # prev pairing on every path
     for adaptive in (False, True):
         for p in _paths(ctx, adaptive):
@@ -248,7 +258,7 @@ def r12_4(ctx):
                 rep.check(ok, "R12.4", astq.loc(fi), base,
                           f"on non-advancing path [{p.label()}] prev_* changes although curr_* does not",
                           "prev_* unchanged when nothing advances")
-    ctx.floor("R12.4", 6)
+    ctx.floor("R12.4", 12)
 
 
 def r12_5(ctx):
